@@ -200,6 +200,7 @@ fn main() -> miette::Result<()> {
             Ok(())
         }
         Some(Command::Check { name }) => {
+            lace::features::init(Default::default());
             file_message(Green, "Checking", &name);
             let contents = StaticSource::new(fs::read_to_string(&name).into_diagnostic()?);
             let _ = assemble(&contents)?;
@@ -208,6 +209,7 @@ fn main() -> miette::Result<()> {
         }
         Some(Command::Clean { name: _ }) => todo!("There are no debug files implemented to clean!"),
         Some(Command::Watch { name }) => {
+            lace::features::init(Default::default());
             if !name.exists() {
                 bail!("File does not exist. Exiting...")
             }
